@@ -350,6 +350,20 @@ class Index:
 # ------------------------------------------------------------------------------------------------
 # decorator uses
 # ------------------------------------------------------------------------------------------------
+def hidden_may_be_none(ix, cls, hidden):
+    """does some method of the class (or of an ancestor) assign `self.<hidden> = None`?"""
+    for c in ix.mro(cls):
+        ci = ix.classes.get(c)
+        if not ci:
+            continue
+        for n in ast.walk(ci["node"]):
+            if isinstance(n, ast.Assign) and isinstance(n.value, ast.Constant) and n.value.value is None:
+                for t in n.targets:
+                    if isinstance(t, ast.Attribute) and t.attr == hidden and _is_name(t.value, "self"):
+                        return True
+    return False
+
+
 def collect_props(ix):
     props = []
     for cname, ci in sorted(ix.classes.items(), key=lambda kv: (kv[1]["file"], kv[1]["node"].lineno)):
@@ -1017,6 +1031,10 @@ class Translator:
                     out.append(dict(base, op="inline", f="validator:" + vb["key"], src=("same", None), body=vb["body"],
                                     end_line=t["call_line"],
                                     callee=dict(file=vb["file"], name=d["validator"], line=vb["line"], first_line=vb["first_line"])))
+            elif t["op"] == "TAssignNodeValue" and d.get("node_opt"):
+                # node = getattr(self, hidden); node.value = value — with the hidden attribute None: AttributeError,
+                # raised by the assignment itself, before anything is written
+                out.append(dict(base, op="call", f="setattr:self." + d["hidden"] + ".value", r=True, m=True, a=True))
             elif t["op"] in ("TAssignNodeValue", "TSetattr"):
                 out.append(dict(base, op="mutate", target="self." + d["hidden"] + (".value" if t["op"] == "TAssignNodeValue" else "")))
         return out
@@ -1426,6 +1444,8 @@ def collection_mutators(ix):
 def build():
     ix = Index()
     props = collect_props(ix)
+    for d in props:
+        d["node_opt"] = d["kind"] == "val" and d["types"][0] != "none" and hidden_may_be_none(ix, d["cls"], d["hidden"])
     templates = {n: translate_template(ix, n) for n in ("make_prop_val_node", "make_prop_pointer")}
     T = Translator(ix, props, templates)
     # generated setters: instantiate in Python too (Coq re-instantiates and compares)
@@ -1551,7 +1571,8 @@ def emit_v(G):
         base = f"(Some {cs(d['base'])})" if d["base"] else "None"
         val = f"(Some {cs(os.path.basename(d['file'])[:-3] + '.' + d['validator'])})" if d["validator"] else "None"
         rows.append(f"  mk_prop {cs(d['cls'])} {cs(d['name'])} {cs(d['hidden'])} {'PVal' if d['kind'] == 'val' else 'PPtr'} "
-                    f"{ty} {base} {val} {cbool(d['deletable'])} {cbool(d['public'] and not d['syntax_layer'])}")
+                    f"{ty} {base} {val} {cbool(d['deletable'])} {cbool(d['public'] and not d['syntax_layer'])} "
+                    f"{cbool(d.get('node_opt', False))}")
     A(";\n".join(rows))
     A("].")
     A("")
